@@ -16,6 +16,9 @@ open EraVerif.Model.C10
 def le32 (bs : List Nat) : Nat :=
   bs.getD 0 0 + 256 * bs.getD 1 0 + 65536 * bs.getD 2 0 + 16777216 * bs.getD 3 0
 
+/-- `u32::to_le_bytes` -/
+def le32Bytes (n : Nat) : List Nat := [n % 256, n / 256 % 256, n / 65536 % 256, n / 16777216 % 256]
+
 inductive Class where
   | ok            -- a value was decoded
   | tooLarge      -- "message too large"
